@@ -134,9 +134,15 @@ def C12(tier):
     ps = PRECISIONS_Q if tier != 'thorough' else PRECISIONS_T
     obs = [[law, {'p': p}] for p in ps for law in laws.FIXED_LAWS]
     D = 6 if tier != 'thorough' else 12
-    obs += [[law, {'D': (D if law not in ('rt_div', 'rt_muldiv') else min(D, 8))}] for law in laws.RATIONAL_LAWS]
+    for law in laws.RATIONAL_LAWS:
+        if law == 'rt_mul':
+            # two unbounded numerators over positive denominators; denominators of either sign with the second numerator in -D..D
+            obs.append([law, {'D': D, 'posden': True}])
+            obs.append([law, {'D': min(D, 8), 'smallc': True}])
+        else:
+            obs.append([law, {'D': (D if law not in ('rt_div', 'rt_muldiv') else min(D, 8))}])
     r = _leaf(obs, FIXED_FUNCS + RAT_FUNCS, require=list(laws.FIXED_LAWS) + list(laws.RATIONAL_LAWS))
-    r['bounds'] = dict(precisions=ps, operands='unbounded', rational_denominators='1..%d' % D, divisor_numerators='-%d..%d, nonzero' % (D, D))
+    r['bounds'] = dict(precisions=ps, operands='unbounded', rational_denominators='-%d..%d, nonzero (products of two unbounded numerators: positive denominators)' % (D, D), divisor_numerators='-%d..%d, nonzero' % (D, D))
     return r
 
 
